@@ -61,6 +61,9 @@ structure State where
   /-- ghost (not in the Go code, never read by the model): log of the operations accepted into
   the pending set since the last Reset -/
   accepted : List (Nat × OpInfo) := []
+  /-- ghost: ids whose results the application has acknowledged (`AckResult`), i.e. taken off the
+  result queue itself -/
+  ackedByApp : List Nat := []
   deriving Repr, Inhabited
 
 /-- `addPendingOp` over the operations of a request, stopping at the first duplicate id -/
@@ -143,6 +146,12 @@ def await (s : State) : Await :=
   if s.sendErrs ≠ 0 ∨ s.recvErrs ≠ 0 then .errors s.sendErrs s.recvErrs
   else if s.sendq = [] ∧ s.pendOps = [] ∧ !s.pendElec ∧ !s.pendParams then .converged
   else .notYet
+
+/-- `AckResult`: the results of the named operations leave the result queue (the nil entries a
+failed dequeue left behind stay) -/
+def ack (s : State) (ids : List Nat) : State :=
+  { s with results := s.results.filter (fun r => match r with | some x => !ids.contains x.opId | none => true),
+           ackedByApp := ids ++ s.ackedByApp }
 
 /-- `Reset` -/
 def reset (s : State) : State := { fibMode := s.fibMode }
